@@ -46,11 +46,9 @@ ASSUMPTIONS = ['np.argsort returns a sorting permutation (checked by contract_ar
                'the Louvain/Leiden kernels, the propagation sweeps, the PageRank scores and np.random are parameters of '
                'the model (their outputs are recorded and replayed), they belong to C06/C13/C04; assumed of them and '
                'evaluated by contract lines on every run: one label per node, refined clusters inside coarse clusters, '
-               'no merge => stop flag (Louvain, tol_aggregation >= 0), a round without stop flag shrinks the graph '
-               '(Leiden), one row of scores per node',
-               'tol_aggregation >= 0 for Louvain, > 0 for Leiden (a negative tolerance makes the real loops '
-               'non-terminating, and Leiden with tolerance 0 can oscillate for ever on float noise: reported to C17, '
-               'outside the options drawn); a fit that goes beyond 200 rounds is stopped by the harness, noted and skipped',
+               'no merge => stop flag (Louvain, tol_aggregation >= 0), one row of scores per node',
+               'tol_aggregation >= 0 (a negative tolerance makes the real Louvain loop non-terminating: outside the '
+               'options drawn); a fit that goes beyond 200 rounds is stopped by the harness, noted and skipped',
                'KCenters is run on non-negative weights with positive total only (PageRank refuses other inputs inside '
                'the part that is a parameter of the model)',
                'a node "without outgoing edge" is read as a node of zero out-weight (explicit zeros count as no edge)']
@@ -409,9 +407,6 @@ def louvain_cases(ctx, cls_name, b, params, force_bipartite, container='csr', li
             if cls_name == 'Louvain':
                 out.append(Case(key0 + ('nomerge', t), dict(sig0, output='contract:NoMergeStops'), None, None,
                                 'c05.contract_nomerge %s %d' % (enc_list(lv[1]), flags[t]), True, desc))
-            else:
-                out.append(Case(key0 + ('progress', t), dict(sig0, output='contract:LeidenProgress'), None, None,
-                                'c05.contract_progress %s %d' % (enc_list(rec.refined[t]), flags[t]), True, desc))
     if cls_name == 'Leiden':
         # contract of the refinement kernel assumed by `leiden_fit_valid`
         for t in range(len(rec.levels)):
@@ -794,9 +789,7 @@ def prop_params(rng):
 
 def leiden_params(rng):
     p = louvain_params(rng)
-    if p['tol_aggregation'] == 0:
-        p['tol_aggregation'] = 1e-6      # Leiden with tol_aggregation=0 may oscillate for ever (reported to C17)
-    return p
+    return p          # tol_aggregation = 0 is drawn again: Leiden.fit stops when a round merges nothing (b2c73765)
 
 
 def estimator_cases(ctx, name, b, reps=1, kcenters=True):
